@@ -384,7 +384,7 @@ func genSlots(g *hx.Gen, out *hx.Out) {
 	}
 	full := "Version:\t5.2.7\nSerial Number:\t1234567\nCHUID:\t3019d4e739da739ced39ce739d836858210842108421c84210c3eb3410\nCCC:\tNo data available\nSlot 9a:\t\n\tAlgorithm:\tRSA2048\n\tSubject DN:\tCN=a\nSlot 9c:\t\n\tAlgorithm:\tECCP256\nSlot 9d:\t\nSlot 9e:\t\nPIN tries left:\t3\n"
 	texts := []string{full, "", "\n", "Slot 9a:\n", "Slot 9a", "Slot 9", "Slot ", "Slot", "Slo", "Slot 9\nSlot 9c:\n", "  Slot 9a:\n", "Slot9a:xx\n", "SlotXYZ\n", "slot 9a:\n",
-		"Slot 9a:\r\nSlot 9c:\r\n", "Slot 82:\nSlot f9:\n", "Slot é:\n", "Slot 9a:", "Slots 9a\n", "Slot \t\n", "Slot 9a:\n\nSlot\n\nSlot 9e:\n"}
+		"Slot 9a:\r\nSlot 9c:\r\n", "Slot 9\r\n", "Slot 9\r\nSlot 9c:\r\n", "Slot 9a\r", "Slot 9a:\n" + strings.Repeat("x", 70000) + "\nSlot 9c:\nSlot 9e:\n", "Slot 9a:\n\tSubject DN:\t" + strings.Repeat("CN=a,", 14000) + "\nSlot 9c:\n", strings.Repeat("Slot 9a:\n", 3000), "Slot 82:\nSlot f9:\n", "Slot é:\n", "Slot 9a:", "Slots 9a\n", "Slot \t\n", "Slot 9a:\n\nSlot\n\nSlot 9e:\n"}
 	for _, t := range texts {
 		emit(t, 0, "local")
 	}
